@@ -7,7 +7,7 @@ CXX=${CXX:-g++}
 cd "$W" || exit 2
 test -s patch.diff || { echo "no patch.diff"; exit 2; }
 git diff --quiet -- include && { echo "worktree has no change under include/"; exit 2; }
-build() { $CXX -std=c++20 -pthread -I"$W/include" "$@" demo.cpp -o "$W/demo_confirm" 2>"$W/demo_confirm.err"; }
+build() { $CXX -std=${STD:-c++20} -pthread -I"$W/include" "$@" demo.cpp -o "$W/demo_confirm" 2>"$W/demo_confirm.err"; }
 build "$@" || { echo "demo does not build with the change"; head -5 demo_confirm.err; exit 2; }
 timeout 300 ./demo_confirm >demo_with.out 2>&1; with=$?
 git apply -R patch.diff || { echo "patch.diff does not match the worktree"; exit 2; }   # (not git stash: its ref is shared by all worktrees)
